@@ -16,33 +16,27 @@ Open Scope string_scope.
 
 (* =========================================================================== the decision *)
 
-(* Full statement: whatever the engine allows is granted by the policy in the sense of the property text. *)
-Definition decision_sound_statement : Prop := forall P pn id owner ot op,
+(* Whatever the engine allows is granted by the policy in the sense of the property text (the "only if" the
+   property states).  Full strength since commit 512fea4 (a group named "" is a group); before, the statement
+   needed the hypothesis that no group of the requester is named "" (finding C03-empty-group-name, now fixed). *)
+Theorem decision_sound : forall P pn id owner ot op,
   allowed_by_policy P pn id owner ot op = true -> granted_spec P pn id owner ot op.
-
-(* It holds for every identity none of whose groups is named "" ... *)
-Theorem decision_sound_partial : forall P pn id owner ot op,
-  wf_identity id ->
-  allowed_by_policy P pn id owner ot op = true -> granted_spec P pn id owner ot op.
-Proof. exact decision_sound_partial_l. Qed.
-Print Assumptions decision_sound_partial.
-
-(* ... and fails for the group "" (known finding C03-empty-group-name): the engine treats it as
-   "no group information" and consults the preset section although the policy defines groups. *)
-Theorem decision_sound_refuted : exists P pn id owner ot op,
-  allowed_by_policy P pn id owner ot op = true /\ ~ granted_spec P pn id owner ot op.
-Proof. exact decision_sound_refuted_l. Qed.
-Print Assumptions decision_sound_refuted.
+Proof. exact decision_sound_l. Qed.
+Print Assumptions decision_sound.
 
 Example decision_sound_nonvacuous :
-  wf_identity {| id_user := Some "bob"; id_groups := Some ["A"; "B"] |} /\
   allowed_by_policy [("p", {| preset := None; groups := Some [("B", [(2, [(10, AllowAll)])])] |})] "p"
                     {| id_user := Some "bob"; id_groups := Some ["A"; "B"] |} (Some "alice") 2 10 = true.
-Proof. split; [simpl; intros [H|[H|[]]]; discriminate|vm_compute; reflexivity]. Qed.
+Proof. vm_compute. reflexivity. Qed.
+
+(* regression witness of the repaired finding: the group "" no longer receives the preset section *)
+Theorem empty_group_name_denied : allowed_by_policy f11_policies "p" f11_identity (Some "alice") 2 10 = false.
+Proof. exact empty_group_name_denied_l. Qed.
+Print Assumptions empty_group_name_denied.
 
 (* exact characterisation: allowed iff the policy exists and a section the engine consults for the
-   requester (the preset without group information; for each group its group section, the preset
-   for the group "") has an entry for the object type and the operation that is AllowAll, or
+   requester (the preset without group information; with it, the group section of one of the requester's groups)
+   has an entry for the object type and the operation that is AllowAll, or
    AllowOwner with requester = owner *)
 Theorem decision_table : forall P pn id owner ot op,
   allowed_by_policy P pn id owner ot op = true <-> table_spec P pn id owner ot op.
@@ -64,10 +58,10 @@ Theorem default_deny :
   (forall P pn b u owner ot op, slookup pn P = Some b -> preset b = None ->
      allowed_by_policy P pn {| id_user := u; id_groups := None |} owner ot op = false) /\
   (* group information and no groups section (this is also the restrictive quirk F10) *)
-  (forall P pn b id gs owner ot op, slookup pn P = Some b -> id_groups id = Some gs -> ~ In "" gs ->
+  (forall P pn b id gs owner ot op, slookup pn P = Some b -> id_groups id = Some gs ->
      (groups b = None \/ groups b = Some []) -> allowed_by_policy P pn id owner ot op = false) /\
   (* no entry for any of the requester's groups *)
-  (forall P pn b id gs gm owner ot op, slookup pn P = Some b -> id_groups id = Some gs -> ~ In "" gs ->
+  (forall P pn b id gs gm owner ot op, slookup pn P = Some b -> id_groups id = Some gs ->
      groups b = Some gm -> (forall g, In g gs -> slookup g gm = None) ->
      allowed_by_policy P pn id owner ot op = false) /\
   (* empty group list *)
@@ -88,9 +82,8 @@ Print Assumptions default_deny.
 (* with group information the most permissive applicable group section decides:
    allowed iff the section of at least ONE of the requester's groups grants *)
 Theorem most_permissive_group : forall P pn u gs owner ot op,
-  ~ In "" gs ->
-  (allowed_by_policy P pn {| id_user := u; id_groups := Some gs |} owner ot op = true
-   <-> exists g, In g gs /\ group_section_grants P pn g u owner ot op).
+  allowed_by_policy P pn {| id_user := u; id_groups := Some gs |} owner ot op = true
+  <-> exists g, In g gs /\ group_section_grants P pn g u owner ot op.
 Proof. exact most_permissive_group_l. Qed.
 Print Assumptions most_permissive_group.
 
@@ -114,7 +107,7 @@ Print Assumptions allowed_implies_all_or_owner.
    group information + a policy with only a preset section is denied although the property text (and
    docs/source/server.rst) let the preset decide.  The property is an "only if"; nothing ungranted happens. *)
 Theorem converse_counterexample : exists P pn id owner ot op,
-  wf_identity id /\ granted_spec P pn id owner ot op /\ allowed_by_policy P pn id owner ot op = false.
+  granted_spec P pn id owner ot op /\ allowed_by_policy P pn id owner ot op = false.
 Proof. exact converse_counterexample_l. Qed.
 Print Assumptions converse_counterexample.
 
@@ -138,13 +131,12 @@ Theorem loading_preserves_decisions : forall base d pn id owner ot op,
 Proof. exact loading_preserves_decisions_l. Qed.
 Print Assumptions loading_preserves_decisions.
 
-(* ... hence whatever it allows is granted by the DOCUMENT (same hypothesis as decision_sound_partial) *)
-Theorem loaded_file_sound_partial : forall base d pn id owner ot op,
-  wf_identity id ->
+(* ... hence whatever it allows is granted by the DOCUMENT *)
+Theorem loaded_file_sound : forall base d pn id owner ot op,
   allowed_by_policy (overlay base (load_document d)) pn id owner ot op = true ->
   granted_spec (overlay base (document_meaning d)) pn id owner ot op.
 Proof. exact loaded_file_sound_l. Qed.
-Print Assumptions loaded_file_sound_partial.
+Print Assumptions loaded_file_sound.
 
 Example loading_nonvacuous :
   let d := [("p", DSections (Some []) (Some [("G", [(2, [(10, AllowAll)])])])); ("q", DLegacy [(1, [(8, AllowOwner)])]);
@@ -232,20 +224,15 @@ Theorem denied_like_missing : forall P id s ph r o,
 Proof. exact denied_like_missing_l. Qed.
 Print Assumptions denied_like_missing.
 
-(* Full statement of the headline: an operation takes effect on, or is answered as passed for, an
-   object only if the object's policy grants the operation to the requester. *)
-Definition effect_only_if_granted_statement : Prop := forall P id s ph r out s' ph',
-  step_item P id (s, ph) r = (out, (s', ph')) ->
-  s' <> s \/ ph' <> ph \/ passed out = true ->
-  forall o op, addressed r ph s o op -> granted_spec P (o_pol o) id (o_owner o) (o_type o) op.
-
-Theorem effect_only_if_granted_partial : forall P id s ph r out s' ph',
-  wf_identity id ->
+(* The headline: an operation takes effect on, or is answered as passed for, an object only if the object's
+   policy grants the operation to the requester - for every object the request addresses (primary object,
+   wrapping key, derivation bases, ID placeholder target). *)
+Theorem effect_only_if_granted : forall P id s ph r out s' ph',
   step_item P id (s, ph) r = (out, (s', ph')) ->
   s' <> s \/ ph' <> ph \/ passed out = true ->
   forall o op, addressed r ph s o op -> granted_spec P (o_pol o) id (o_owner o) (o_type o) op.
 Proof. exact effect_only_if_granted_l. Qed.
-Print Assumptions effect_only_if_granted_partial.
+Print Assumptions effect_only_if_granted.
 
 (* which objects are addressed, per kind of site *)
 Theorem addressed_objects :
